@@ -66,6 +66,21 @@ theorem findNearestPublic_some {pubs : List Pub} {a : Nat} {p : Pub}
   have h2 := List.find?_some h
   exact ⟨List.mem_reverse.mp h1, by simpa using h2⟩
 
+theorem mem_finOf_inls {f : Func} {x : Inl} : x ∈ (finOf f).inls ↔ x ∈ f.inls := List.mem_mergeSort
+
+theorem mem_finOf_lines {f : Func} {l : Line} (h : l ∈ (finOf f).lines) : l ∈ f.lines :=
+  (List.mem_filter.mp h).1
+
+theorem inlineeAt_covers {f : Func} {d a : Nat} {x : Inl}
+    (h : inlineeAt (finOf f).inls d a = .ok (some x)) : x ∈ f.inls ∧ x.depth = d ∧ x.Covers a := by
+  obtain ⟨hm, hd, h1, h2, h3⟩ := inlineeAt_sound h
+  exact ⟨mem_finOf_inls.mp hm, hd, h3, h1, h2⟩
+
+theorem lineAt_covers {f : Func} {a : Nat} {l : Line} (h : lineAt (finOf f) a = some l) :
+    l ∈ f.lines ∧ l.Covers a := by
+  obtain ⟨hm, h0, h1, h2, h3⟩ := lineAt_sound (b := finOf f) rfl h
+  exact ⟨mem_finOf_lines hm, h0, h3, h1, h2⟩
+
 /-- **C11.1 `func_covers`** — "the reported function is a FUNC record of that file whose range
     contains the address or, if none does, [a] PUBLIC symbol [at or below the address]".
     Every reported function is either a FUNC record of the file that contains the address
@@ -143,22 +158,71 @@ theorem bases_le {r : Recs} {sf : SymFile} (hb : build r = .ok sf) {base instr :
             omega
         | bare h0 hl hfr => subst hfr; cases hsrc
 
+/-! ## 2b. nothing in `fill_symbol` can panic: the `+ module base` additions cannot overflow -/
+
+/-- **C11.3b `fill_no_panic`** — for every file, every module base and every instruction address
+    that fits `u64`, `fill_symbol` returns: `func.address + base`, `address + base` (source line)
+    and `public.address + base` cannot overflow (each summand is at most `instruction - base`),
+    `self.inlinees[index]` / `[index - 1]` are in range, and the `for depth in 1..` counter stays
+    below `u32::MAX` (needs fewer than 2^32-2 INLINE ranges per FUNC — a file of > 40 GB). -/
+theorem fill_no_panic {r : Recs} {sf : SymFile} (hb : build r = .ok sf) (base instr : Nat)
+    (hinstr : instr ≤ U64MAX) (hn : ∀ f ∈ r.funcs, f.inls.length + 1 < U32MAX) :
+    ∃ fr, fillSymbol sf base instr = .ok fr := by
+  by_cases hlt : instr < base
+  · exact ⟨_, fillSymbol_below hlt⟩
+  · have hge : base ≤ instr := by omega
+    unfold fillSymbol
+    rw [if_neg hlt]
+    simp only
+    cases hf : funcAt sf.funcs sf.ftab (instr - base) with
+    | some b =>
+      obtain ⟨f, hfm, rfl, _, _, hle, _⟩ := funcAt_is_record hb hf
+      simp only
+      rw [checkedAdd_of_le _ (show (finOf f).addr + base ≤ U64MAX by
+        show f.addr + base ≤ U64MAX; omega)]
+      simp only
+      obtain ⟨o, ho⟩ := inlineeAt_ok (finOf f).inls 0 (instr - base)
+      rw [ho]
+      cases o with
+      | some x =>
+        simp only
+        obtain ⟨_, _, hx, _⟩ := inlineeAt_sound ho
+        obtain ⟨fr0, hs⟩ := setSource_ne_panic sf
+          { fn := some ((finOf f).name, (finOf f).addr + base, paramSize sf (instr - base) (finOf f)) }
+          x.callFile x.callLine x.addr base (by omega)
+        rw [hs]
+        simp only
+        have hlen : (finOf f).inls.length = f.inls.length := List.length_mergeSort _
+        have hfl := List.length_filter_le (fun y : Inl => decide (1 ≤ y.depth)) (finOf f).inls
+        have := hn f hfm
+        obtain ⟨inl, hl⟩ := inlineLoop_ok sf (finOf f) (instr - base) ((finOf f).inls.length + 1) 1
+          x.origin (by omega) (by omega)
+        rw [hl]
+        exact ⟨_, rfl⟩
+      | none =>
+        simp only
+        cases hl : lineAt (finOf f) (instr - base) with
+        | none => exact ⟨_, rfl⟩
+        | some l =>
+          simp only
+          obtain ⟨_, _, _, hla, _⟩ := lineAt_covers hl
+          exact setSource_ne_panic _ _ _ _ _ _ (by omega)
+    | none =>
+      simp only
+      cases hp : findNearestPublic sf.pubs (instr - base) with
+      | none => exact ⟨_, rfl⟩
+      | some p =>
+        simp only
+        obtain ⟨_, hpa⟩ := findNearestPublic_some hp
+        have hadd := checkedAdd_of_le "set_function: public.address + module.base_address()"
+          (show p.addr + base ≤ U64MAX by omega)
+        cases hprev : prevFunc sf (instr - base) with
+        | none => simp only [hadd]; exact ⟨_, rfl⟩
+        | some prev =>
+          simp only [hadd]
+          split <;> exact ⟨_, rfl⟩
+
 /-! ## 3. the source line is that of the line record (or outermost inline call site) covering the address -/
-
-theorem mem_finOf_inls {f : Func} {x : Inl} : x ∈ (finOf f).inls ↔ x ∈ f.inls := List.mem_mergeSort
-
-theorem mem_finOf_lines {f : Func} {l : Line} (h : l ∈ (finOf f).lines) : l ∈ f.lines :=
-  (List.mem_filter.mp h).1
-
-theorem inlineeAt_covers {f : Func} {d a : Nat} {x : Inl}
-    (h : inlineeAt (finOf f).inls d a = .ok (some x)) : x ∈ f.inls ∧ x.depth = d ∧ x.Covers a := by
-  obtain ⟨hm, hd, h1, h2, h3⟩ := inlineeAt_sound h
-  exact ⟨mem_finOf_inls.mp hm, hd, h3, h1, h2⟩
-
-theorem lineAt_covers {f : Func} {a : Nat} {l : Line} (h : lineAt (finOf f) a = some l) :
-    l ∈ f.lines ∧ l.Covers a := by
-  obtain ⟨hm, h0, h1, h2, h3⟩ := lineAt_sound (b := finOf f) rfl h
-  exact ⟨mem_finOf_lines hm, h0, h3, h1, h2⟩
 
 /-- **C11.4 `line_covers`** — "the source line is that of the line record (or outermost inline
     call site) covering the address". A reported source location `(file, line, base)` belongs to a
